@@ -161,7 +161,7 @@ class ReopenQ(EffectsQ):
     relevant = {"C06": ("R1",), "C08": ("R1",), "C09": ("R4",)}  # C09: the read-only open (no store, read_only set, too-small file refused)  # C06's crash model and C08's "reopened file" clause rest on the zeroing the real closure performs
 
     def bounds(self):
-        return ("all paths of map_mut_in / map_in with their closures, of unmount, of Options::open and of sync/unsync Arena::from(Memory) (no loops in them); reserved <= 2^20; callees outside the crate opaque "
+        return ("all paths of map_mut_in / map_in with their closures, of unmount, of Options::open and of sync/unsync Arena::from(Memory) (no loops in them); reserved <= 2^32 - 256; callees outside the crate opaque "
                 "(fresh symbolic result + effect record), Options::with_* setters = same Options value, sanity_check / write_sanity summarised "
                 "(decided by Engine K under C09), size_of::<Header>() = 24, cleanup (unwinding) paths not followed; "
                 "trusted: MAP_SHARED stores reach the file, the OS honours set_len/sync_all")
@@ -187,7 +187,7 @@ class CreateQ(EffectsQ):
     cross_check = True
 
     def bounds(self):
-        return ("all paths of Memory::map_mut_in with create_new = true, of Memory::map_anon and of Options::data_offset_in (no loops in them); reserved <= 2^20; "
+        return ("all paths of Memory::map_mut_in with create_new = true, of Memory::map_anon and of Options::data_offset_in (no loops in them); reserved <= 2^32 - 256; "
                 "callees outside the crate opaque (fresh symbolic result + effect record), write_sanity summarised (its byte layout is decided by Engine K under C09), "
                 "size_of::<Header>() = 24; cleanup (unwinding) paths not followed")
 
